@@ -16,7 +16,7 @@ From Coq Require Import ZArith List Bool.
 From V Require Import Result LazyTree World WorldGuard WorldRun ForestDefs InvDefs WorldInv WorldProps.
 From V Require SetOpsProofs ModListProofs SymxProofs.
 From V Require Import SeqOps SetAlg.
-From V Require SeqOpsProofs SetAlgProofs AggregateProofs MoveAllProofs.
+From V Require SeqOpsProofs SetAlgProofs AggregateProofs MoveAllProofs MoveAllSets.
 From Coq Require Import Sorted.
 Import ListNotations.
 Open Scope Z_scope.
@@ -119,6 +119,22 @@ Proof.
   intros w known p fk a R G.
   destruct (SetOpsProofs.oset_ixor_effect w known p fk a (reach_forest w known R) (reach_cache w known R) G) as (w' & E & _ & M).
   exists w'. exact (conj E M).
+Qed.
+
+(* "move everything from there to here": update / |= given the whole collection of another owner q -- all of it arrives, q's
+   collection is left empty, nobody else gains a member (the implementation walks a copy of an owning collection: fix 2ca8079) *)
+Theorem C16_set_update_all_of_another : forall w known p q fk m, reachable_k w known -> p <> q -> m = SUpdate \/ m = SIor ->
+  op_okb w known (OSet p fk m [field w q fk]) = true ->
+  exists w', step w (OSet p fk m [field w q fk]) = Ok w' /\
+    (forall x, In x (field w' p fk) <-> In x (field w p fk) \/ In x (field w q fk)) /\
+    field w' q fk = [] /\
+    (forall r x, r <> p -> In x (kids w' r) -> In x (kids w r)).
+Proof.
+  intros w known p q fk m R Hne [Hm|Hm] G; subst m.
+  - destruct (MoveAllSets.oset_update_all_of_another w known p q fk (reach_forest w known R) (reach_cache w known R) Hne G)
+      as (w' & E & _ & _ & M & Z & F). exists w'. repeat split; try assumption; apply M.
+  - destruct (MoveAllSets.oset_ior_all_of_another w known p q fk (reach_forest w known R) (reach_cache w known R) Hne G)
+      as (w' & E & _ & _ & M & Z & F). exists w'. repeat split; try assumption; apply M.
 Qed.
 
 (* ================= node sets: the non-mutating half of the set interface =================
@@ -595,6 +611,7 @@ Print Assumptions C16_set_ior.
 Print Assumptions C16_set_iand.
 Print Assumptions C16_set_isub.
 Print Assumptions C16_set_ixor.
+Print Assumptions C16_set_update_all_of_another.
 Print Assumptions C16_set_operators.
 Print Assumptions C16_set_comparisons.
 Print Assumptions C16_set_algebra_example.
